@@ -139,6 +139,18 @@ class Conformer(Species):
         self._coordinates = Coordinates(coords)
         return None
 
+    def _set_reordered_atoms(self, order: Sequence[int]) -> None:
+        """Set the atoms of this conformer in a new order"""
+        if self._parent_atoms is not None:
+            self._parent_atoms = Atoms([self._parent_atoms[i] for i in order])
+
+        if self._coordinates is not None:
+            self._coordinates = Coordinates(
+                np.asarray(self._coordinates)[list(order)],
+                units=self._coordinates.units,
+            )
+        return None
+
     def translate(self, vec: Sequence[float]) -> None:
         """Translate this conformer by a vector"""
         if self._coordinates is not None:
